@@ -35,7 +35,8 @@ Inductive op :=
 | OpAlterColumn (r:areq)
 | OpCreateTableComment                  (* impl.create_table_comment(table): SQLAlchemy's SetTableComment *)
 | OpDropTableComment                    (* impl.drop_table_comment(table): SQLAlchemy's DropTableComment *)
-| OpAddColumnComment.                   (* op.add_column of a Column carrying a comment *)
+| OpAddColumnComment                    (* op.add_column of a Column carrying a comment *)
+| OpCreateExclude (has_where:bool).     (* postgresql.CreateExcludeConstraintOp: impl.add_constraint(op.to_constraint()) *)
 
 (* the names an operation is called with *)
 Record names := mkNames { n_schema : option str; n_table : str; n_newtable : str; n_column : str; n_newcolumn : str;
@@ -137,6 +138,9 @@ Definition plan (d:dialect) (o:op) : list pstep :=
           | Postgresql | Oracle | Mssql => [alter (CForeign FSetColumnComment) (n_table n) (n_column n) (n_schema n)]
           | _ => []
           end)
+  | OpCreateExclude w =>
+      (* to_constraint: schema_obj.table(self.table_name, schema=self.schema); ExcludeConstraint(elements..., name=...) *)
+      [alter_named (CPgExclude w) (n_table n) (n_column n) (n_schema n) (n_newcolumn n)]
   | OpAlterColumn r =>
       match family d with                  (* MariaDBImpl is MySQLImpl *)
       | Postgresql => pg_alter r
